@@ -53,6 +53,7 @@ def stream_case(case):
       sc = case['streams'][i]
       want = sum(len(w) for w in sc['wrtes'])
       got = ''
+      retries = [0]
       while len(got) < want:
         n = sc['read_len']
         n = min(n, want - len(got)) if n else 0
@@ -60,6 +61,9 @@ def stream_case(case):
         try:
           data = streams[i].read(length=n, timeout_ms=sc['read_timeout_ms'])
         except Exception as e:  # pylint: disable=broad-except
+          if case.get('retry_timeouts') and type(e).__name__ in ('AdbTimeoutError', 'UsbReadFailedError') and retries[0] < 6:
+            retries[0] += 1      # a read may time out (the thread was descheduled past its deadline); nothing may be lost by that
+            continue
           out['calls'].append(('read', i, s.now - t0, sc['read_timeout_ms'], type(e).__name__))
           out['errors'].append(('read', i, type(e).__name__, str(e)[:80], len(got), want))
           break
@@ -169,7 +173,7 @@ def check(case):
   vmode.quiet_logging()
   plan = {int(k): v for k, v in (case.get('plan') or {}).items()}
   rp = tuple(case['random']) if case.get('random') else None
-  s = V.Scheduler(plan=plan, random_policy=rp, time_limit=600.0, max_steps=250000)
+  s = V.Scheduler(plan=plan, random_policy=rp, time_limit=600.0, max_steps=250000, trace=bool(case.get('trace')))
   fn = stream_case(case)
   res, exc = s.run(lambda: fn(s), watchdog_s=30.0)
   n_streams = len(case['streams'])
@@ -233,8 +237,9 @@ def check(case):
     kind = 'second-WRTE-before-OKAY' if 'second WRTE' in v else 'chunk-exceeds-maxdata' if 'maxdata' in v else 'other'
     r.bad('C14/flow-control/%s' % kind, '%s; %s' % (v, desc))
   # timeouts respected
+  stalled = any(isinstance(v, (list, tuple)) for v in plan.values())   # a thread descheduled for seconds overruns by that much
   for kind, i, dur, tmo, how in res['calls']:
-    if tmo is not None and dur > tmo / 1000.0 + 0.2:
+    if tmo is not None and dur > tmo / 1000.0 + 0.2 and not stalled:
       r.bad('C14/timeout-exceeded', '%s on stream %d took %.3fs with timeout %sms (%s); %s' % (kind, i, dur, tmo, how, desc))
   return r, s
 
@@ -286,6 +291,15 @@ SWEEP_CASES = [
 ]
 
 
+STALL_CASES = [
+    {'streams': [{'wrtes': ['abcd', 'efgh'], 'close': False, 'read_len': 0, 'read_timeout_ms': 2000, 'write_len': 0, 'write_timeout_ms': None},
+                 {'wrtes': ['xy'], 'close': False, 'read_len': 0, 'read_timeout_ms': None, 'write_len': 0, 'write_timeout_ms': None}],
+     'merge': [0, 1, 0], 'maxdata': 16, 'retry_timeouts': True},
+    {'streams': [{'wrtes': ['abcdefgh'], 'close': False, 'read_len': 3, 'read_timeout_ms': 2000, 'write_len': 0, 'write_timeout_ms': None}],
+     'merge': [0], 'maxdata': 16, 'retry_timeouts': True},
+]
+
+
 def plan(tier, seed):
   q = tier == 'quick'
   jobs = []
@@ -296,6 +310,7 @@ def plan(tier, seed):
     for sh in range(nsh):
       jobs.append({'kind': 'sweep', 'name': 'sweep%d.%d' % (ci, sh), 'case': ci, 'shard': sh, 'nshards': nsh, 'stride': 4 if q else 1, 'offset': seed % 4 if q else 0})
   jobs.append({'kind': 'unacked', 'name': 'unacked'})
+  jobs.append({'kind': 'stall', 'name': 'stall'})
   return jobs
 
 
@@ -317,6 +332,24 @@ def run_job(job, acct):
             for sig, detail in r.violations:
               (acct.known if sig in known else acct.violation)(sig, case, detail)
     acct.exhaustive_parts.append('never-acknowledged WRTE followed by another write(): maxdata x first/second write length x {other stream active}')
+    return
+  if job['kind'] == 'stall':
+    # a reader with a finite timeout is descheduled past its deadline at every line of the message-reading path (between
+    # header and payload of a device WRTE, before the acknowledgement, ...): its read may time out, but the stream stays
+    # in step - retried reads deliver every byte, each WRTE is acknowledged once, the other stream is unaffected
+    for base in STALL_CASES:
+      r0, s0 = check(dict(base, trace=True))
+      acct.case(base, r0.nontrivial, r0.classes)
+      for sig, detail in r0.violations:
+        (acct.known if sig in known else acct.violation)(sig, base, detail)
+      pts = [k for k, tidx, tag in s0.tags if tag and tag[0] == 'line' and tag[1] in ('read_message', 'read_for_stream', '_handle_message_for_stream', '_read_messages_until_true')]
+      for k in pts:
+        case = dict(base, plan={str(k): ['stall', 2.5]})
+        r, _ = check(case)
+        acct.case(case, True, r.classes + ['stall'])
+        for sig, detail in r.violations:
+          (acct.known if sig in known else acct.violation)(sig, case, detail)
+    acct.exhaustive_parts.append('reader stalled 2.5 s (timeout 2 s) at every line of the message-reading path, %d base cases' % len(STALL_CASES))
     return
   if job['kind'] == 'hyp':
     hyp.search(acct, planned_cases(), lambda c: check(c)[0], seed=job['hseed'], max_examples=job['n'], known=known, shrink_budget_s=40)
